@@ -47,7 +47,7 @@ class Src:
         """tokens of a source file, with the fields of `generator::names::Names` renamed to canonical names:
         what an `ident_*` interpolation denotes is read from generator/names.rs, not from how the field is spelt"""
         if rel not in self.cache:
-            self.cache[rel] = self.inline_fragments(self.inline_helpers(self.renamed_toks(rel), rel), rel)
+            self.cache[rel] = self.inline_fragments(self.inline_conditional_fragments(self.inline_helpers(self.renamed_toks(rel), rel), rel), rel)
         return self.cache[rel]
 
     def renamed_toks(self, rel):
@@ -171,6 +171,73 @@ class Src:
             out.append(t)
             i += 1
         return out
+
+    def inline_conditional_fragments(self, ts, rel):
+        """`let X = if C { quote!{A} } else { quote!{B} };` with `#X` spliced into a later `quote!{Q}` of the same block:
+        rewrite that later template as `if C { quote!{Q[A/X]} } else { quote!{Q[B/X]} }` (C is a plain name or field: no side effect)"""
+        import copy
+        from rustlex import Tok
+        for _ in range(4):
+            n = len(ts)
+            hit = None
+            for i in range(n - 6):
+                if not (ts[i].text == "let" and ts[i + 1].kind == "ident" and ts[i + 2].text == "=" and ts[i + 3].text == "if"):
+                    continue
+                j = i + 4
+                while j < n and ts[j].text != "{":
+                    j += 1
+                cond = ts[i + 4:j]
+                if not cond or not all(t.kind == "ident" or t.text in (".", "!") for t in cond):
+                    continue
+                e1 = match_close(ts, j)
+                if not (ts[j + 1].text == "quote" and ts[j + 2].text == "!" and match_close(ts, j + 3) == e1 - 1):
+                    continue
+                if not (e1 + 2 < n and ts[e1 + 1].text == "else" and ts[e1 + 2].text == "{"):
+                    continue
+                e2 = match_close(ts, e1 + 2)
+                if not (ts[e1 + 3].text == "quote" and ts[e1 + 4].text == "!" and match_close(ts, e1 + 5) == e2 - 1 and ts[e2 + 1].text == ";"):
+                    continue
+                a_body, b_body = ts[j + 4:e1 - 1], ts[e1 + 6:e2 - 1]
+                name = ts[i + 1].text
+                # the first later quote! of the same block that splices #name
+                depth, k, target = 0, e2 + 2, None
+                while k < n:
+                    x = ts[k].text
+                    if x == "quote" and k + 2 < n and ts[k + 1].text == "!":
+                        qe = match_close(ts, k + 2)
+                        if any(ts[u].text == "#" and ts[u + 1].text == name for u in range(k + 3, qe - 1)):
+                            target = (k, qe)
+                            break
+                        k = qe + 1
+                        continue
+                    depth += (x in ("{", "(", "[")) - (x in ("}", ")", "]"))
+                    if depth < 0:
+                        break
+                    k += 1
+                if target:
+                    hit = (i, e2 + 1, cond, a_body, b_body, name, target)
+                    break
+            if not hit:
+                return ts
+            i, stmt_end, cond, a_body, b_body, name, (qs, qe) = hit
+
+            def subst(body):
+                out, u = [], qs + 3
+                while u < qe:
+                    if ts[u].text == "#" and ts[u + 1].text == name:
+                        out += [copy.copy(x) for x in body]
+                        u += 2
+                    else:
+                        out.append(copy.copy(ts[u]))
+                        u += 1
+                return out
+            ln = ts[qs].line
+            T = lambda kind, text: Tok(kind, text, ln)
+            q = lambda body: [T("ident", "quote"), T("punct", "!"), T("punct", "{")] + body + [T("punct", "}")]
+            repl = ([T("ident", "if")] + [copy.copy(x) for x in cond] + [T("punct", "{")] + q(subst(a_body)) + [T("punct", "}"), T("ident", "else"), T("punct", "{")]
+                    + q(subst(b_body)) + [T("punct", "}")])
+            ts = ts[:i] + ts[stmt_end + 1:qs] + repl + ts[qe + 1:]
+        return ts
 
     def inline_fragments(self, ts, rel):
         """`let X = quote!{F};` (or a block ending in one) whose `#X` is spliced into later templates of the same function:
@@ -341,6 +408,8 @@ def parse_cond(toks, rel, own_flag):
             out.append(("flagnot", FIELD_FLAG[m.group(1)], None))
         elif p == "! self . enabled":
             out.append(("self-disabled", None, None))
+        elif p == "self . enabled":
+            out.append(("self-enabled", None, None))
         else:
             return None
     return out
@@ -420,6 +489,11 @@ def walk_check(src, nodes, rel, own, path, rules, aborts, depth):
                 flagnot = [p for p in path if p[0] == "flagnot"]
                 aborts.append((own, [p for p in path if p[0] == "atom"], flagnot[0][1] if flagnot else None, abort_err(n.toks)))
                 continue
+            m = re.fullmatch(r"features . (\w+) . (\w+) \( \) ;", s)
+            if m and m.group(1) in FIELD_FLAG:
+                for fl in feature_method_effects(src, m.group(1), m.group(2), rel, n.line):
+                    rules.append((own, list(path), fl))
+                continue
             m = re.fullmatch(r"self . (check_\w+) \((.*)\)( ;| ,)?", s)
             if m:
                 if depth > 3:
@@ -433,6 +507,13 @@ def walk_check(src, nodes, rel, own, path, rules, aborts, depth):
                 err(rel, n.line, f"unrecognised condition `{text_of(n.cond)}`")
             if c == [("self-disabled", None, None)]:
                 continue
+            if any(x[0] == "self-disabled" for x in c):
+                err(rel, n.line, "`!self.enabled` inside a conjunction")
+            if any(x[0] == "self-enabled" for x in c):
+                # `if self.enabled [&& …] { BODY }`: every rule is about an enabled source anyway; nothing may hang on the else side
+                if n.els:
+                    err(rel, n.line, "else-branch of a test of self.enabled")
+                c = [x for x in c if x[0] != "self-enabled"]
             walk_check(src, n.then, rel, own, path + [x for x in c], rules, aborts, depth)
             if n.els:
                 if len(c) != 1 or c[0][2] is None:
@@ -453,6 +534,31 @@ def walk_check(src, nodes, rel, own, path, rules, aborts, depth):
                 walk_check(src, body, rel, own, path + [("atom", mode_atom(mflag, vs, rel, n.line), None)], rules, aborts, depth)
         elif isinstance(n, Quote):
             err(rel, n.line, "quote! inside check")
+
+
+def feature_method_effects(src, field, method, rel, line, depth=0):
+    """flags that `features.<field>.<method>()` sets: the method may only assign `true` to fields of its own feature"""
+    if depth > 3:
+        err(rel, line, "feature helper methods nest too deeply")
+    frel = src.feature_file(field)
+    found = find_fn(src.toks(frel), method)
+    if not found:
+        err(rel, line, f"method `{method}` of feature `{field}` not found")
+    if text_of(found[0]).replace(" ", "") not in ("&mutself",):
+        err(rel, line, f"helper method `{method}` takes arguments")
+    out = []
+    for st in [x for x in text_of(found[1]).split(";") if x.strip()]:
+        st = st.strip()
+        if st == "self . enabled = true":
+            out.append(FIELD_FLAG[field])
+        elif st == "self . with_offset = true" and field == "table_range":
+            out.append("tableRangeOfs")
+        else:
+            m = re.fullmatch(r"self . (\w+) \( \)", st)
+            if not m:
+                err(frel, found[1][0].line, f"helper method `{method}` does something other than enabling its feature: `{st}`")
+            out += feature_method_effects(src, field, m.group(1), rel, line, depth + 1)
+    return out
 
 
 def resolve_order(src):
@@ -785,7 +891,7 @@ def gen_catalog(src):
         has_vis = vm is not None
         if has_vis and vm.group(1) != key:
             err(rel, found[1][0].line, f"default name `{vm.group(1)}` differs from the feature key `{key}`")
-        hidden = re.search(r'name : "(__\w+)" . to_string \( \)', body)
+        hidden = re.search(r'name : "(__\w+)" . (?:to_string|to_owned|into) \( \)', body) or re.search(r'name : String :: from \( "(__\w+)" \)', body)
         hidden_vis = "vis : Some ( Visibility :: Inherited )" in body
         if has_vis and not (hidden and hidden_vis):
             err(rel, found[1][0].line, "disabled default is not (`__name`, inherited visibility)")
@@ -796,7 +902,7 @@ def gen_catalog(src):
         modes = []
         if "mode" in strs:
             # the arms of the match on the mode string
-            mm = re.search(r'get_str_opt \( "mode" \) . unwrap_or_else \( \|\| "(\w+)" . to_string \( \) \) . as_str \( \) \{(.*?)_ =>', body, re.S)
+            mm = re.search(r'get_str_opt \( "mode" \) . unwrap_or_else \( \|\| "(\w+)" . (?:to_string|to_owned|into) \( \) \) . as_str \( \) \{(.*?)_ =>', body, re.S)
             if mm:
                 if mm.group(1) != "auto":
                     err(rel, found[1][0].line, "default mode is not auto")
